@@ -12,6 +12,8 @@ package raft
 //@ addressable logFuture.log
 //@ addressable fileSnapshotMeta.SnapshotMeta
 //@ addressable configurationChangeFuture.logFuture
+//@ addressable Server.ID
+//@ addressable Server.Address
 
 //@ model LogStore { has map[uint64]bool; ent map[uint64]Log; first uint64; last uint64 }
 
@@ -959,3 +961,16 @@ package raft
 //@   ensures  well_formed: result == nil ==> wfAppend(req)
 //@   ensures  prev_is_next_minus_one: result == nil ==> req.PrevLogEntry == nextIndex - 1
 //@   ensures  log_untouched: r.logs.has == old(r.logs.has) && r.logs.ent == old(r.logs.ent) && r.currentTerm == old(r.currentTerm)
+
+// ---------------------------------------------------------------------------
+// leaderLoop: local call-site obligations only (the select loop carries no invariant; inferred
+// frame candidates are switched off; preconditions of the handlers it dispatches to are not claimed here)
+
+//@ func (r *Raft) leaderLoop
+//@   requires nonnil: r != nil
+//@   noinference
+//@   at call (*Raft).restoreUserSnapshot#1 assert refused_during_transfer: r.leaderState.leadershipTransferInProgress != 1
+//@   at call (*Raft).appendConfigurationEntry#1 assert gate: r.configurations.latestIndex == r.configurations.committedIndex &&
+//@              r.commitIndex >= r.leaderState.commitment.startIndex && r.leaderState.leadershipTransferInProgress != 1
+//@   at call (*Raft).dispatchLogs#1 assert not_while_transferring_or_stepping_down: r.leaderState.leadershipTransferInProgress != 1 && !stepDown
+//@   at call time.After#2 assert lease_check_interval_floor: arg0 >= minCheckInterval
